@@ -231,7 +231,10 @@ def line_search(
     if above_iter == 0 and not is_boxed:
         steplength_0 = min(1.0 / np.sqrt(d.dot(d)), max_steplength)
     else:
-        steplength_0 = 1.0
+        # The unit step leads to xbar, which may lie on a bound: the maximum feasible
+        # step is then 1 up to rounding, and a first trial above it would be refused
+        # by dcsrch (STP .GT. STPMAX), i.e., a spurious line search failure.
+        steplength_0 = min(1.0, max_steplength)
 
     # Support for python 3.7 and 3.8: the minpack2 wrapper has been removed from
     # scipy from version 1.12 and replaced with a python implementation.
